@@ -408,14 +408,24 @@ def r6_formatter_dispatch(ctx, sym):
             fmt.attrs['method:' + name] = (lambda n: (lambda v: Obj('rendered', how='fmt:' + n, of=v)))(name)
         raw = Obj('rawvalue')
 
-        def b_getattr(o, name):
-            return o.attrs['method:' + name]
+        def b_getattr(o, name, *default):
+            if ('method:' + name) in o.attrs:
+                return o.attrs['method:' + name]
+            if name in o.attrs:
+                return o.attrs[name]
+            if default:
+                return default[0]
+            raise Raised('AttributeError', name)
         fd.calls['getattr'] = b_getattr
         fd.calls['str'] = lambda v: Obj('rendered', how='str', of=v)
         fd.functions['chomp_spec'] = mod.func('chomp_spec')
         fd.methods['__format__'] = lambda recv, s: (recv.attrs['how'], recv.attrs['of'], s)
-        me = Obj('wrapper', key='k', value=raw, formatter=fmt)
+        # the wrapper is built by its own constructor, so whatever it keeps about the value is there
+        me = Obj('wrapper')
+        me.attrs['__classdef__'] = mod.cls('FeedbackFieldWrapper')
         try:
+            winit = mod.func('FeedbackFieldWrapper.__init__')
+            fd.call_function(winit, ['k', raw, fmt], bound_self=me)
             got = fd.call_function(wf, [spec], bound_self=me)
         except (Raised, Inconclusive) as e:
             # getattr(...)(...) call form
